@@ -392,6 +392,54 @@ def check_group_writing(ctx, rng):
                      "group_sizes": [len(g) for g in groups], "via": via})
 
 
+def check_huge_group(ctx, rng):
+    """One graph big enough to make a single frame of more than 2 MiB (length prefix of 4 bytes), between two small ones,
+    written with a grouped logical type: still exactly one frame per graph, and the groups come back."""
+    integ = rng.choice(["generic", "rdflib"])
+    n = 9000
+    pad = "x" * 230
+    big = [(("iri", f"http://ex.org/huge/s{k}"), ("iri", "http://ex.org/huge/p"), ("lit", f"{k}-{pad}", None, None)) for k in range(n)]
+    small1 = [(("iri", "http://ex.org/huge/a"), ("iri", "http://ex.org/huge/p"), ("lit", "1", None, None))]
+    small2 = [(("iri", "http://ex.org/huge/b"), ("iri", "http://ex.org/huge/p"), ("lit", "2", None, None))]
+    groups = [small1, big, small2]
+    cfg = {"physical": 1, "preset": (64, 8, 4), "logical": rng.choice([3, 13]), "frame_size": 250, "delimited": True,
+           "generalized": False, "rdf_star": False}
+    out = io.BytesIO()
+    try:
+        if integ == "generic":
+            gser.grouped_stream_to_file((pj.generic_sink_of(g) for g in groups), out, options=pj.make_options(cfg))
+        else:
+            rser.grouped_stream_to_file((pj.rdflib_store_of(g, dataset=False) for g in groups), out, options=pj.make_options(cfg))
+    except Exception as e:  # noqa: BLE001
+        ctx.violation({"clause": "group-writing-raised", "summary": f"{integ} huge group: {type(e).__name__}: {e}", "kind": "huge-group"})
+        return
+    data = out.getvalue()
+    ctx.observe("huge-group-sequences-written")
+    ctx.observe("group-sequences-written")
+    w = None
+    try:
+        frames = wire.dec_stream(data, True)
+        sizes = [f["span"][1] - f["span"][0] for f in frames]
+        if max(sizes) >= 1 << 21:
+            ctx.observe("frames-of-2MiB-or-more")
+        per = [sum(1 for r in f["rows"] if r[0] == "triple") for f in frames]
+        if [x for x in per if x] != [1, n, 1]:
+            w = {"clause": "frame-count", "summary": f"{integ}: frames carry {[x for x in per if x]} triples for groups [1, {n}, 1]"}
+    except wire.WireError as e:
+        w = {"clause": "written-bytes-malformed", "summary": f"{integ}: a group of {n} triples ({len(data)} bytes written): {e}"}
+    if w is None:
+        try:
+            got = [len(x[0]) for x in pj.iter_grouped(integ, data)]
+            if [x for x in got if x] != [1, n, 1]:
+                w = {"clause": "grouped-roundtrip", "summary": f"{integ}: grouped parse returns groups of sizes {got}"}
+        except Exception as e:  # noqa: BLE001
+            w = {"clause": "grouped-parse-raised", "summary": f"{integ}: {type(e).__name__}: {e}"}
+    if w:
+        w.update({"kind": "huge-group", "integration": integ, "cfg": cfg})
+        ctx.violation(w)
+    ctx.case(("huge-group", integ, cfg["logical"]), True, sample={"part": "group-writing", "kind": "huge group", "bytes": len(data)})
+
+
 def judge_groups(integ: str, data: bytes, groups: list):
     nonempty = [[T.norm_stmt(s) for s in g] for g in groups if g]
     try:
@@ -497,6 +545,8 @@ def check_dataset_graphs_writing(ctx, rng):
 
 
 def run_shard(ctx):
+    if ctx.shard % 2 == 0:
+        check_huge_group(ctx, ctx.rng("huge"))
     i = 0
     while not ctx.out_of_time():
         rng = ctx.rng(i)
@@ -518,6 +568,8 @@ def run_shard(ctx):
 
 
 def replay(w: dict):
+    if w.get("kind") == "huge-group":
+        return {"clause": w["clause"], "summary": "re-run ./check C07 with the same VERIF_SEED"}
     if w.get("kind") == "interleaved":
         return {"clause": w["clause"], "summary": "interleaved-parser witnesses are reproduced by re-running ./check C07 with the same VERIF_SEED"}
     if "datasets" in w:
